@@ -551,9 +551,11 @@ EbErrorType load_default_buffer_configuration_settings(
         //Pa-References.Min to sustain flow (RA-5L-MRP-ON) -->TODO: derive numbers for other GOP Structures.
         min_paref = 25 + scs_ptr->scd_delay + eos_delay + (scs_ptr->static_config.enable_tpl_la ? needed_lad_pictures : 0);
 
-        if (scs_ptr->static_config.hierarchical_levels == 5 &&
-            core_count == SINGLE_CORE_COUNT) {
-            min_paref += 8;
+        // The numbers above are for 5 layers. A 6-layer mini-GOP (32 pictures) keeps more references alive;
+        // with the 5-layer counts both pools run dry after ~70 pictures and the pipeline stalls for good.
+        if (scs_ptr->static_config.hierarchical_levels == 5) {
+            min_paref += 16;
+            min_ref += 8;
         }
 
         if (scs_ptr->static_config.enable_overlays)
